@@ -101,12 +101,10 @@ def tail_range(repo, lon_iv, lat_iv):
         raise Unsupported("shape of the to_lonlat statement")
     env = {}
     ev.assign(env, st.targets[0], res)
-    try:
-        for s2 in fnode.body[idx + 1:]:
-            ev.stmt(mod, env, s2)
-    except _Return as r:
-        return r.v
-    raise Unsupported("cell_to_lonlat does not return after to_lonlat")
+    out = ev.run_block(mod, env, fnode.body[idx + 1:])
+    if out is None:
+        raise Unsupported("cell_to_lonlat does not return after to_lonlat")
+    return out
 
 
 def d1(repo):
